@@ -601,4 +601,46 @@ PRINTER_MUTANTS = [
 ]
 MUTANTS += PRINTER_MUTANTS
 
+FRONTEND_MUTANTS = [
+    dict(id="c15-hex-drops-cc", props=["C15"], rule="F1", names="command_code",
+         edits=[(HEX, "        root_path=root_path,\n        command_code=command_code,\n        **kwargs,", "        root_path=root_path,\n        **kwargs,")]),
+    dict(id="c15-swtpm-no-return", props=["C15"], rule="F2", names="return value",
+         edits=[(SWTPM, "    result = yield from Binary.marshal(", "    yield from Binary.marshal("), (SWTPM, "    )\n    return result\n", "    )\n")]),
+    dict(id="c15-pcap-return-regress", props=["C15"], rule="F2", names="return value",
+         edits=[(PCAP, "    result = yield from Binary.marshal(", "    yield from Binary.marshal("), (PCAP, "    )\n    return result\n", "    )\n")]),
+    dict(id="c15-hex-validation-regress", props=["C15"], rule="F3", names="int(",
+         edits=[(HEX, """        if high_nibble not in VALID_HEX or low_nibble not in VALID_HEX:
+            raise ValueError(
+                f"Invalid hex string: invalid digits {high_nibble + low_nibble}."
+            )
+""", "")]),
+    dict(id="c15-hex-validates-one", props=["C15"], rule="F3", names="low_nibble",
+         edits=[(HEX, "        if high_nibble not in VALID_HEX or low_nibble not in VALID_HEX:", "        if high_nibble not in VALID_HEX:")]),
+    dict(id="c15-pcap-slice", props=["C15"], rule="F5", names="size slice",
+         edits=[(PCAP, "int.from_bytes(binary_blob[2:6], byteorder=\"big\")", "int.from_bytes(binary_blob[0:4], byteorder=\"big\")")]),
+    dict(id="c15-pcap-runt", props=["C15"], rule="F5", names="runt",
+         edits=[(PCAP, "        if len(binary_blob) < 10:", "        if len(binary_blob) < 6:")]),
+    dict(id="c15-swtpm-lowercase", props=["C15"], rule="F6", names="VALID_HEX",
+         edits=[(SWTPM, 'VALID_HEX = b"0123456789ABCDEF"', 'VALID_HEX = b"0123456789ABCDEFabcdef"')]),
+    dict(id="c15-swtpm-no-eof-test", props=["C15"], rule="F6", names="end-of-input",
+         edits=[(SWTPM, "        elif state == STATE_WANT_CMD_START:\n            if b is None:\n                raise ValueError(\"Missing command payload\")\n            elif b == b\"\\n\":", "        elif state == STATE_WANT_CMD_START:\n            if b == b\"\\n\":")]),
+    dict(id="c15-swtpm-unvalidated-low", props=["C15"], rule="F3",
+         edits=[(SWTPM, """            elif b not in VALID_HEX:
+                raise ValueError("Invalid hex digit '%s'" % str(b))
+            else:
+                value += b
+                i = int(value, 16)""", """            else:
+                value += b
+                i = int(value, 16)""")]),
+    dict(id="c15-auto-drops-lookahead", props=["C15"], rule="F5", names="re-yield",
+         edits=[(AUTO, "    yield from look_ahead\n    yield from buffer_iter\n", "    yield from buffer_iter\n")]),
+    dict(id="c15-auto-wrong-frontend", props=["C15"], rule="F5", names="dispatch",
+         edits=[(AUTO, '    if format == "hex":\n        result = yield from Hex.marshal(', '    if format == "hex":\n        result = yield from Binary.marshal(')]),
+    dict(id="c15-facade-drops-kwargs", props=["C15"], rule="F1", names="kwargs",
+         edits=[(S + "io/swtpm_log/__init__.py", "            tpm_type, buffer, root_path=root_path, command_code=command_code, **kwargs\n", "            tpm_type, buffer, root_path=root_path, command_code=command_code\n")]),
+    dict(id="c15-benign-hex-format", props=["C15", "C10"], benign=True,
+         edits=[(HEX, '    high_nibble = b""\n    low_nibble = b""\n\n    while True:', '    high_nibble = bytes()\n    low_nibble = bytes()\n\n    while True:')]),
+]
+MUTANTS += FRONTEND_MUTANTS
+
 MUTANTS = [m for m in MUTANTS if not m.get("skip_if_missing")]
